@@ -5,12 +5,18 @@ ROOT = os.path.dirname(os.path.dirname(os.path.abspath(__file__)))
 
 # id -> (built, technique, level text, level note, design ref)
 CHECKS = {
+ "C07": (True, "runtime oracle: real CostModel / EdgeTraversal on sampled configurations and state pairs vs independent closed formula; live relaxations watched through hooks in the search monitors",
+         "Calls the real cost model (traversal/access/estimate) and EdgeTraversal::forward/reverse_traversal on sampled weight/rate/surcharge/aggregation setups and finite state pairs incl. zero and negative deltas; positivity, the sum formula, linearity in the weights and zero-weight neutrality are asserted per call.",
+         "closed formula written in the harness; surcharges weighted by their feature weight; magnitudes bounded (|state|<=1e6)", "3.7"),
  "C09": (True, "runtime oracle over all unit pairs/triples (exhaustive pairs, sampled magnitudes) vs independent SI table",
          "Runs the real *Unit::convert and Time/Speed/Energy::create on every ordered unit pair and unit triple with sampled magnitudes; an independent SI table and algebraic identities decide. Exhaustive in the unit dimension, sampled in magnitude.",
          "trusts the SI factors written in the harness and f64 arithmetic; energy units only get identity/linearity/round-trip", "3.9"),
  "C11": (True, "model-based runtime monitor: random operation histories on the real container / StateModel vs insertion-ordered reference, full read API after every step",
          "Drives the real CompactOrderedHashMap and StateModel through sampled construction/extension/insert/overwrite histories and named get/set/add sequences; an insertion-ordered Vec reference and slot-isolation assertions decide after every step.",
          "reference map semantics (first position, last value); private IndexedEntry fields read via Debug", "3.11"),
+ "C17": (True, "runtime oracle: real GridSearchPlugin and apply_input_plugins on sampled query/grid shapes vs nested-loop product (multiset comparison)",
+         "Runs the real grid-search plugin, alone and through the application's plugin pipeline with flattening, on sampled queries; the multiset of generated queries is compared with an independent odometer product.",
+         "canonical-JSON multiset comparison; object choices use axis-private keys", "3.17"),
  "C18": (True, "runtime oracle: real scc on all digraphs <=4 vertices + random/long graphs vs transitive-closure / Tarjan reference",
          "Executes the real component analysis on every digraph with <=4 vertices (thorough: also all loop-free 5-vertex digraphs) and on sampled larger graphs; a reference mutual-reachability partition decides.",
          "reference closure/Tarjan implementation in the harness; deep chains run with an enlarged stack", "3.18"),
